@@ -318,6 +318,17 @@ impl Prop for C13 {
         }
         for (i, (r, o)) in scn.runs.iter().zip(outs.iter()).enumerate() {
             let stems = stems_of(&r.callback);
+            let empty_range = r.start.map(|x| x > m.tip()).unwrap_or(false);
+            if empty_range && stems.iter().any(|s| o.dump_before.contains_key(&format!("{}.csv.tmp", s))) {
+                st.probe("empty_range_run_with_stale_tmp");
+            }
+            if !o.exit.ok() && empty_range {
+                // refusing an empty range is not a scheduling or rerun matter; it must only leave no result
+                if let Some(n) = new_or_changed(o).into_iter().find(|n| is_final_name(n) && stems.iter().any(|s| n.starts_with(&format!("{}-", s)))) {
+                    v.push(viol("C13/history/result-differs-from-model", format!("run {} ({}, empty range) failed with {:?} but left {}", i, r.callback, o.exit, n)));
+                }
+                continue;
+            }
             if !o.exit.ok() {
                 v.push(viol("C13/history/run-failed", format!("run {} ({} {:?}..{:?}) failed: {:?}: {}", i, r.callback, r.start, r.end, o.exit, super::c01::tail(&o.stderr_str()))));
                 continue;
@@ -340,13 +351,9 @@ impl Prop for C13 {
             if i > 0 && scn.runs[..i].iter().any(|p| p.callback == r.callback && p.start == r.start && p.end == r.end) {
                 st.probe("same_name_rerun");
             }
-            if r.start.map(|x| x > m.tip()).unwrap_or(false) {
+            if empty_range {
                 // empty range: whatever was in the folder, the files this run leaves under final names hold
                 // what a run in an empty folder leaves — no row (header line for unspent/balances)
-                let had_stale = stems.iter().any(|s| o.dump_before.contains_key(&format!("{}.csv.tmp", s)));
-                if had_stale {
-                    st.probe("empty_range_run_with_stale_tmp");
-                }
                 for n in new_or_changed(o) {
                     if !is_final_name(n) || !stems.iter().any(|s| n.starts_with(&format!("{}-", s))) {
                         continue;
